@@ -778,6 +778,8 @@ func (fc *FuncCtx) execMapUpdate(fr *Frame, st *State, x *ssa.MapUpdate) {
 	fc.oblige(fr, st, "safety.nilmap", "", tNot(tEq(m.T, "0")), x.Pos(), "assignment to entry in a non-nil map")
 	k := fc.keyTerm(st, fc.val(fr, st, x.Key), mt.Key())
 	v := fc.val(fr, st, x.Value)
+	fc.publish(st, x.Value.Type())
+	fc.publish(st, x.Key.Type())
 	fc.mapStore(st, mk, m.T, k, v)
 }
 
